@@ -35,20 +35,22 @@ struct World {
 	~World() { delete A; delete B; }
 };
 
-struct Knob { std::string name; mpz_ptr ptr; char cls; };   // cls: 'g' element of the group, 'p' modulus, 'q' order, 'm' other integer
+struct Knob { std::string name; mpz_ptr ptr; char cls; bool reprove = false; mpz_ptr pptr = 0; };   // reprove: also used by the re-proved-statement oracle; pptr: the prover's copy of the same input
+inline Knob RK(const std::string &n, mpz_ptr v, mpz_ptr p) { Knob k{n, v, 'g'}; k.reprove = true; k.pptr = p; return k; }   // cls: 'g' element of the group, 'p' modulus, 'q' order, 'm' other integer
 
-struct GridStats { unsigned long atoms = 0, mutants = 0, rejected = 0, thrown = 0, tolerated_acc = 0, fails = 0, knobmut = 0; };
+struct GridStats { unsigned long reproved = 0, reproved_thrown = 0; unsigned long atoms = 0, mutants = 0, rejected = 0, thrown = 0, tolerated_acc = 0, fails = 0, knobmut = 0; };
 
 struct System {
 	std::string name, variant;
 	bool interactive = false;
-	ProverFn prover;
-	VerifierFn verifier;
+	ProverFn prover, rprover;                     // rprover / rverifier: used by the re-proved-statement oracle when set
+	VerifierFn verifier, rverifier;
 	std::function<void()> reset;                 // undo verifier-side state changes of an accepting run
 	std::vector<Knob> knobs;
 	std::function<void()> after_knob;            // recompute what depends on a knob (optional)
 	Z p, q;
 	std::function<std::string(size_t, size_t)> label;   // (atom index, number of atoms) -> stable label
+	Z small_order;                                // an element of order dividing k = (p-1)/q, not 1 or p-1 (0: none)
 	std::function<bool(mpz_srcptr, mpz_srcptr)> tol;     // tolerated acceptance? default: negative representative of same residue mod q
 };
 
@@ -116,6 +118,7 @@ inline bool run_grid(System &S, GridStats &st, std::string *honest_out = 0) {
 	}
 	// public inputs
 	for (auto &k : S.knobs) {
+		if (!k.ptr) continue;
 		Z keep(k.ptr);
 		std::vector<Mut> ms;
 		auto add = [&](const char *n, mpz_srcptr x) { Mut m; m.name = n; mpz_set(m.val, x); ms.push_back(m); };
@@ -147,6 +150,48 @@ inline bool run_grid(System &S, GridStats &st, std::string *honest_out = 0) {
 	int v1 = verdict_of(S, sv, a);
 	if (v1 != 1) printf("NOTE %s replay after grid gives %d (harness state not restored)\n", S.name.c_str(), v1);
 	return true;
+}
+
+// "re-proved non-member statement": a group-element public input is replaced (for prover AND verifier) by a value
+// outside the order-q subgroup or outside (0,p), then the HONEST PROVER CODE makes a fresh proof for the tampered
+// statement.  The prover does not test membership; whether the proof verifies depends on the parity of the
+// challenges (p - v differs from v by the element -1 of order 2), so the attempt is repeated with fresh coins.
+// The verifier has to refuse every time: it must not accept a statement that contains a non-member.
+inline void run_reprove(System &S, GridStats &st, int attempts) {
+	const ProverFn &P = S.rprover ? S.rprover : S.prover; const VerifierFn &V = S.rverifier ? S.rverifier : S.verifier;
+	for (auto &k : S.knobs) {
+		if (!k.reprove) continue;
+		mpz_ptr any = k.ptr ? k.ptr : k.pptr; if (!any) continue;
+		Z keep(any);
+		std::vector<Mut> ms; Z t;
+		auto add = [&](const char *n, mpz_srcptr x) { Mut m; m.name = n; mpz_set(m.val, x); ms.push_back(m); };
+		mpz_sub(t, S.p, keep); add("pminusv", t);
+		if (mpz_sgn(S.small_order.v) > 0) { mpz_mul(t, keep, S.small_order); mpz_mod(t, t, S.p); add("timesu", t); }
+		mpz_add(t, keep, S.p); add("plusp", t);
+		for (auto &m : ms) {
+			if (k.ptr) mpz_set(k.ptr, m.val); if (k.pptr) mpz_set(k.pptr, m.val);
+			if (S.after_knob) S.after_knob();
+			int accepted = 0;
+			for (int it = 0; it < attempts && !accepted; it++) {
+				uint64_t sp = gen().next(), sv = gen().next(); std::string a, b; int v;
+				if (S.interactive) v = run_pair(sp, sv, P, V, a, b);
+				else {
+					SplitMix64 saved = lib_rng(); lib_rng() = SplitMix64(sp);
+					std::istringstream none(""); std::ostringstream out; bool threw = false;
+					try { P(none, out); } catch (...) { threw = true; }
+					lib_rng() = saved;
+					v = threw ? 2 : replay_verifier(sv, out.str(), V);
+				}
+				if (S.reset) S.reset();
+				st.reproved++;
+				if (v == 2) st.reproved_thrown++;
+				if (v == 1) accepted = it + 1;
+			}
+			if (k.ptr) mpz_set(k.ptr, keep); if (k.pptr) mpz_set(k.pptr, keep);
+			if (S.after_knob) S.after_knob();
+			if (accepted) { st.fails++; propfail(S.name + ".reproved." + strip_digits(k.name) + "." + m.name, "the honest prover code run on the statement with public input " + k.name + " replaced by " + hx(m.val) + " (was " + hx(keep) + "; not a member of the order-q subgroup of Z_p^* resp. not in (0,p)) was accepted by the verifier at attempt " + std::to_string(accepted) + "; p=" + hx(S.p) + " q=" + hx(S.q)); }
+		}
+	}
 }
 
 } // namespace verif
